@@ -4,13 +4,314 @@
   are in `ALV.Lemmas.C05*`.
 -/
 import ALV.Lemmas.C07Hash
+import ALV.Lemmas.C05Pow
 import ALV.Spec.C05
 import ALV.Common.Audit
 
 set_option linter.unusedSectionVars false
+set_option linter.unusedVariables false
 namespace ALV.Props.C05
-open ALV.C07 ALV.C05
+open ALV.C07 ALV.C05 LaurentPolynomial
 variable {K : Type} [Field K] [DecidableEq K]
+
+local infix:50 " ≈ " => ALV.C05.Equiv
+
+/-! ## C05.1 field laws of the operators, up to `≈`
+
+`Valid f` is the invariant of a filter object (`WF` dictionaries, non-zero denominator).
+`f ≈ g` is `num_f · den_g = num_g · den_f` in `K[T;T⁻¹]`.  `Agree a b` says that both computations
+run without exception and return valid filters `x ≈ y`.  All statements are for every field `K`,
+every filter (no order bound) — the same-denominator shortcut of `__add__`, the normalisation of
+`__init__` and the negative-power flip of `__pow__` are inside the operators. -/
+
+/-- `≈` is an equivalence relation on valid filters (transitivity needs `K[T;T⁻¹]` to be a domain
+and the middle denominator to be non-zero) -/
+theorem equiv_refl (f : ZF K) : f ≈ f := ALV.C05.Equiv.refl f
+theorem equiv_symm {f g : ZF K} (h : f ≈ g) : g ≈ f := ALV.C05.Equiv.symm h
+theorem equiv_trans {f g h : ZF K} (hf : Valid f) (hg : Valid g) (hh : Valid h)
+    (h1 : f ≈ g) (h2 : g ≈ h) : f ≈ h := ALV.C05.Equiv.trans hf hg hh h1 h2
+
+/-- every operator returns a valid filter (never raises) on valid operands -/
+theorem operators_total {f g : ZF K} (hf : Valid f) (hg : Valid g) (c : K) (n : ℕ) :
+    (∃ h, add f g = .ok h ∧ Valid h) ∧ (∃ h, sub f g = .ok h ∧ Valid h) ∧
+    (∃ h, mul f g = .ok h ∧ Valid h) ∧ (∃ h, neg f = .ok h ∧ Valid h) ∧
+    (∃ h, mulScalar f c = .ok h ∧ Valid h) ∧ (∃ h, pow f n = .ok h ∧ Valid h) ∧
+    (g.num ≠ [] → ∃ h, truediv f g = .ok h ∧ Valid h) := by
+  refine ⟨?_, ?_, ?_, ?_, ?_, ?_, ?_⟩
+  · obtain ⟨h, e, v, _⟩ := add_den hf hg; exact ⟨h, e, v⟩
+  · obtain ⟨h, e, v, _⟩ := sub_den hf hg; exact ⟨h, e, v⟩
+  · obtain ⟨h, e, v, _⟩ := mul_den hf hg; exact ⟨h, e, v⟩
+  · obtain ⟨h, e, v, _⟩ := neg_den hf; exact ⟨h, e, v⟩
+  · obtain ⟨h, e, v, _⟩ := mulScalar_den hf c; exact ⟨h, e, v⟩
+  · obtain ⟨h, e, v, _⟩ := pow_den_nat hf n; exact ⟨h, e, v⟩
+  · intro hg0; obtain ⟨h, e, v, _⟩ := truediv_den hf hg hg0; exact ⟨h, e, v⟩
+
+/-- the operators respect `≈` (so the laws below compose to expression trees of any depth) -/
+theorem operators_congr {f f' g g' : ZF K} (hf : Valid f) (hf' : Valid f') (hg : Valid g) (hg' : Valid g')
+    (h1 : f ≈ f') (h2 : g ≈ g') :
+    Agree (add f g) (add f' g') ∧ Agree (sub f g) (sub f' g') ∧ Agree (mul f g) (mul f' g') ∧
+    Agree (neg f) (neg f') ∧ (g.num ≠ [] → Agree (truediv f g) (truediv f' g')) ∧
+    (∀ n : ℤ, 0 ≤ n ∨ f.num ≠ [] → Agree (pow f n) (pow f' n)) := by
+  have e1 := (equiv_iff_val hf hf').1 h1
+  have e2 := (equiv_iff_val hg hg').1 h2
+  have hnum : ∀ {a b : ZF K}, Valid a → Valid b → val a = val b → a.num ≠ [] → b.num ≠ [] := by
+    intro a b ha hb e h0 hb0
+    exact val_ne_zero ha h0 (e.trans ((val_eq_zero_iff hb).2 hb0))
+  refine ⟨?_, ?_, ?_, ?_, ?_, ?_⟩
+  · exact agree_of_den (add_den hf hg) (by rw [e1, e2]; exact add_den hf' hg')
+  · exact agree_of_den (sub_den hf hg) (by rw [e1, e2]; exact sub_den hf' hg')
+  · exact agree_of_den (mul_den hf hg) (by rw [e1, e2]; exact mul_den hf' hg')
+  · exact agree_of_den (neg_den hf) (by rw [e1]; exact neg_den hf')
+  · intro hg0
+    exact agree_of_den (truediv_den hf hg hg0) (by rw [e1, e2]; exact truediv_den hf' hg' (hnum hg hg' e2 hg0))
+  · intro n hn
+    have hn' : 0 ≤ n ∨ f'.num ≠ [] := hn.imp id (hnum hf hf' e1)
+    exact agree_of_den (pow_den hf n hn) (by rw [e1]; exact pow_den hf' n hn')
+
+theorem add_comm {f g : ZF K} (hf : Valid f) (hg : Valid g) : Agree (add f g) (add g f) :=
+  agree_of_den (add_den hf hg) (by rw [_root_.add_comm]; exact add_den hg hf)
+
+theorem add_assoc {f g h : ZF K} (hf : Valid f) (hg : Valid g) (hh : Valid h) :
+    Agree (add f g >>= fun s => add s h) (add g h >>= fun t => add f t) := by
+  have hL : Den (add f g >>= fun s => add s h) (val f + val g + val h) :=
+    (add_den hf hg).bind fun s hs es => by rw [← es]; exact add_den hs hh
+  have hR : Den (add g h >>= fun t => add f t) (val f + (val g + val h)) :=
+    (add_den hg hh).bind fun t ht et => by rw [← et]; exact add_den hf ht
+  rw [← _root_.add_assoc] at hR
+  exact agree_of_den hL hR
+
+theorem mul_comm {f g : ZF K} (hf : Valid f) (hg : Valid g) : Agree (mul f g) (mul g f) :=
+  agree_of_den (mul_den hf hg) (by rw [_root_.mul_comm]; exact mul_den hg hf)
+
+theorem mul_assoc {f g h : ZF K} (hf : Valid f) (hg : Valid g) (hh : Valid h) :
+    Agree (mul f g >>= fun s => mul s h) (mul g h >>= fun t => mul f t) := by
+  have hL : Den (mul f g >>= fun s => mul s h) (val f * val g * val h) :=
+    (mul_den hf hg).bind fun s hs es => by rw [← es]; exact mul_den hs hh
+  have hR : Den (mul g h >>= fun t => mul f t) (val f * (val g * val h)) :=
+    (mul_den hg hh).bind fun t ht et => by rw [← et]; exact mul_den hf ht
+  rw [← _root_.mul_assoc] at hR
+  exact agree_of_den hL hR
+
+/-- `f·(g+h) ≈ f·g + f·h` -/
+theorem distrib {f g h : ZF K} (hf : Valid f) (hg : Valid g) (hh : Valid h) :
+    Agree (add g h >>= fun s => mul f s)
+      (mul f g >>= fun a => mul f h >>= fun b => add a b) := by
+  have hL : Den (add g h >>= fun s => mul f s) (val f * (val g + val h)) :=
+    (add_den hg hh).bind fun s hs es => by rw [← es]; exact mul_den hf hs
+  have hR : Den (mul f g >>= fun a => mul f h >>= fun b => add a b) (val f * val g + val f * val h) :=
+    (mul_den hf hg).bind fun a ha ea => (mul_den hf hh).bind fun b hb eb => by
+      rw [← ea, ← eb]; exact add_den ha hb
+  rw [← _root_.mul_add] at hR
+  exact agree_of_den hL hR
+
+/-- `f − f ≈ 0` -/
+theorem sub_self {f : ZF K} (hf : Valid f) : Agree (sub f f) (ofScalar 0) :=
+  agree_of_den (sub_den hf hf) (by
+    have h := ofScalar_den (0 : K)
+    rw [map_zero, map_zero] at h
+    rw [_root_.sub_self]; exact h)
+
+/-- `f − g ≈ f + (−g)` and `−f ≈ f·(−1)` -/
+theorem sub_eq_add_neg {f g : ZF K} (hf : Valid f) (hg : Valid g) :
+    Agree (sub f g) (neg g >>= fun n => add f n) ∧ Agree (neg f) (mulScalar f (-1)) := by
+  constructor
+  · have hR : Den (neg g >>= fun n => add f n) (val f + -val g) :=
+      (neg_den hg).bind fun n hn en => by rw [← en]; exact add_den hf hn
+    rw [← _root_.sub_eq_add_neg] at hR
+    exact agree_of_den (sub_den hf hg) hR
+  · have h := mulScalar_den hf (-1 : K)
+    rw [map_neg, map_neg, map_one, map_one, mul_neg, mul_one] at h
+    exact agree_of_den (neg_den hf) h
+
+/-- `f / f ≈ 1` for a non-zero `f` -/
+theorem div_self {f : ZF K} (hf : Valid f) (hf0 : f.num ≠ []) : Agree (truediv f f) (ofScalar 1) :=
+  agree_of_den (truediv_den hf hf hf0) (by
+    have h := ofScalar_den (1 : K)
+    rw [map_one, map_one] at h
+    rw [_root_.div_self (val_ne_zero hf hf0)]; exact h)
+
+/-- `(f / g)·g ≈ f` for a non-zero `g` -/
+theorem div_mul_cancel {f g : ZF K} (hf : Valid f) (hg : Valid g) (hg0 : g.num ≠ []) :
+    Agree (truediv f g >>= fun q => mul q g) (.ok f) := by
+  have hL : Den (truediv f g >>= fun q => mul q g) (val f / val g * val g) :=
+    (truediv_den hf hg hg0).bind fun q hq eq => by rw [← eq]; exact mul_den hq hg
+  rw [_root_.div_mul_cancel₀ _ (val_ne_zero hg hg0)] at hL
+  exact agree_of_den hL (Den.ok hf)
+
+/-- scalars: `f·c ≈ ZFilter([c])·f`, `f / c ≈ f·(1/c)`, `f + c`, `c − f`, `c / f` are the field
+operations with the constant `c` -/
+theorem scalar_ops {f : ZF K} (hf : Valid f) (c : K) :
+    Agree (mulScalar f c) (rmulScalar c f) ∧
+    Agree (addScalar f c) (raddScalar c f) ∧
+    Agree (rsubScalar c f) (subScalar f c >>= neg) ∧
+    (c ≠ 0 → Agree (divScalar f c) (mulScalar f (1 / c))) ∧
+    (f.num ≠ [] → Agree (rdivScalar c f) (ofScalar c >>= fun s => truediv s f)) := by
+  refine ⟨?_, ?_, ?_, ?_, ?_⟩
+  · exact agree_of_den (mulScalar_den hf c) (by rw [_root_.mul_comm]; exact rmulScalar_den hf c)
+  · exact agree_of_den (addScalar_den hf c) (by rw [_root_.add_comm]; exact raddScalar_den hf c)
+  · have hR : Den (subScalar f c >>= neg) (-(val f - ι (C c))) :=
+      (subScalar_den hf c).bind fun s hs es => by rw [← es]; exact neg_den hs
+    rw [neg_sub] at hR
+    exact agree_of_den (rsubScalar_den hf c) hR
+  · intro hc
+    have h := divScalar_den hf hc
+    refine agree_of_den h ?_
+    unfold C05.divScalar at h
+    rwa [if_neg hc] at h
+  · intro hf0
+    exact agree_of_den (rdivScalar_den hf hf0 c) (rdivScalar_den hf hf0 c)
+
+/-- `f^(m+n) ≈ f^m · f^n` -/
+theorem pow_add {f : ZF K} (hf : Valid f) (m n : ℕ) :
+    Agree (pow f ((m : ℤ) + n)) (pow f m >>= fun a => pow f n >>= fun b => mul a b) := by
+  have hL : Den (pow f ((m : ℤ) + n)) (val f ^ (m + n)) := by exact_mod_cast pow_den_nat hf (m + n)
+  have hR : Den (pow f m >>= fun a => pow f n >>= fun b => mul a b) (val f ^ m * val f ^ n) :=
+    (pow_den_nat hf m).bind fun a ha ea => (pow_den_nat hf n).bind fun b hb eb => by
+      rw [← ea, ← eb]; exact mul_den ha hb
+  rw [← _root_.pow_add] at hR
+  exact agree_of_den hL hR
+
+/-- the same for all integer exponents of a non-zero filter -/
+theorem zpow_add {f : ZF K} (hf : Valid f) (hf0 : f.num ≠ []) (m n : ℤ) :
+    Agree (pow f (m + n)) (pow f m >>= fun a => pow f n >>= fun b => mul a b) := by
+  have hR : Den (pow f m >>= fun a => pow f n >>= fun b => mul a b) (val f ^ m * val f ^ n) :=
+    (pow_den hf m (Or.inr hf0)).bind fun a ha ea => (pow_den hf n (Or.inr hf0)).bind fun b hb eb => by
+      rw [← ea, ← eb]; exact mul_den ha hb
+  rw [← zpow_add₀ (val_ne_zero hf hf0)] at hR
+  exact agree_of_den (pow_den hf (m + n) (Or.inr hf0)) hR
+
+/-- `f^(−n) ≈ 1 / f^n` (the negative-power flip) -/
+theorem pow_neg {f : ZF K} (hf : Valid f) (hf0 : f.num ≠ []) (n : ℕ) :
+    Agree (pow f (-(n : ℤ)))
+      (ofScalar 1 >>= fun one => pow f n >>= fun p => truediv one p) := by
+  have hR : Den (ofScalar 1 >>= fun one => pow f n >>= fun p => truediv one p) (1 / val f ^ n) := by
+    refine (ofScalar_den (1 : K)).bind fun one hone eone => (pow_den_nat hf n).bind fun p hp ep => ?_
+    have hp0 : p.num ≠ [] := by
+      intro e
+      have := (val_eq_zero_iff hp).2 e
+      rw [ep] at this
+      exact pow_ne_zero n (val_ne_zero hf hf0) this
+    have := truediv_den hone hp hp0
+    rwa [eone, ep, map_one, map_one] at this
+  have hL := pow_den hf (-(n : ℤ)) (Or.inr hf0)
+  rw [zpow_neg, zpow_natCast, ← one_div] at hL
+  exact agree_of_den hL hR
+
+/-- `f^0 ≈ 1`, `f^1 ≈ f`, `f^(n+1) ≈ f^n · f`: the power is the n-fold product -/
+theorem pow_nfold {f : ZF K} (hf : Valid f) (n : ℕ) :
+    Agree (pow f 0) (ofScalar 1) ∧ Agree (pow f 1) (.ok f) ∧
+    Agree (pow f ((n : ℤ) + 1)) (pow f n >>= fun p => mul p f) := by
+  refine ⟨?_, ?_, ?_⟩
+  · have h0 := pow_den_nat hf 0
+    have h1 := ofScalar_den (1 : K)
+    rw [pow_zero] at h0
+    rw [map_one, map_one] at h1
+    exact agree_of_den h0 h1
+  · have h1 := pow_den_nat hf 1
+    rw [pow_one] at h1
+    exact agree_of_den h1 (Den.ok hf)
+  · have hL : Den (pow f ((n : ℤ) + 1)) (val f ^ (n + 1)) := by exact_mod_cast pow_den_nat hf (n + 1)
+    have hR : Den (pow f n >>= fun p => mul p f) (val f ^ n * val f) :=
+      (pow_den_nat hf n).bind fun p hp ep => by rw [← ep]; exact mul_den hp hf
+    rw [← pow_succ] at hR
+    exact agree_of_den hL hR
+
+/-! ### substitution -/
+
+/-- **`f(g)` substitutes `g` for `z`**: for a non-zero `g` at which the denominator of `f` does
+not vanish, `f(g)` runs and denotes `Σ num_k g^(−k) / Σ den_k g^(−k)` -/
+theorem subst_value {f g : ZF K} (hf : Valid f) (hg : Valid g) (hg0 : g.num ≠ [])
+    (hd : evalQ (val g) f.den ≠ 0) :
+    ∃ r, subst f g = .ok r ∧ Valid r ∧ val r = evalQ (val g) f.num / evalQ (val g) f.den :=
+  subst_den hf hg hg0 hd
+
+/-- substituting `z` itself gives back `f` -/
+theorem subst_z {f : ZF K} (hf : Valid f) : Agree (C05.z >>= fun zz => subst f zz) (.ok f) := by
+  refine agree_of_den ?_ (Den.ok hf)
+  refine z_den.bind fun zz hz ez => ?_
+  have hz0 : zz.num ≠ [] := by
+    intro e
+    have := (val_eq_zero_iff hz).2 e
+    rw [ez] at this
+    exact T_ne_zero (-1) (ι_eq_zero.1 this)
+  have hd : evalQ (val zz) f.den ≠ 0 := by
+    rw [ez, evalQ_z]; exact ιD_ne_zero hf
+  have := subst_den hf hz hz0 hd
+  rwa [ez, evalQ_z, evalQ_z] at this
+
+/-- substitution is a ring homomorphism: `(f+g)(h) ≈ f(h)+g(h)` and `(f·g)(h) ≈ f(h)·g(h)`,
+wherever the three denominators do not vanish at `h` -/
+theorem subst_ring_hom {f g h : ZF K} (hf : Valid f) (hg : Valid g) (hh : Valid h) (hh0 : h.num ≠ [])
+    (hdf : evalQ (val h) f.den ≠ 0) (hdg : evalQ (val h) g.den ≠ 0) :
+    Agree (add f g >>= fun s => subst s h) (subst f h >>= fun a => subst g h >>= fun b => add a b) ∧
+    Agree (mul f g >>= fun s => subst s h) (subst f h >>= fun a => subst g h >>= fun b => mul a b) := by
+  have hv : val h ≠ 0 := val_ne_zero hh hh0
+  -- φ : K[T;T⁻¹] → Q K, z⁻¹ ↦ (val h)⁻¹
+  have hφ : ∀ p : MPoly K, evalQ (val h) p = substHom (val h) hv (toLaurent p) :=
+    fun p => (substHom_toLaurent _ hv p).symm
+  have hφf : substHom (val h) hv (D f) ≠ 0 := by rw [D, ← hφ]; exact hdf
+  have hφg : substHom (val h) hv (D g) ≠ 0 := by rw [D, ← hφ]; exact hdg
+  have hA := subst_den hf hh hh0 hdf
+  have hB := subst_den hg hh hh0 hdg
+  constructor
+  · obtain ⟨s, es, hs, evs⟩ := add_den hf hg
+    obtain ⟨s', p, es', hD⟩ := add_D hf hg
+    obtain rfl : s = s' := by rw [es] at es'; exact Except.ok.inj es'
+    have hφs : substHom (val h) hv (D s) ≠ 0 := by
+      rcases hD with hD | hD <;> rw [hD] <;> simp only [map_mul] <;>
+        first
+          | exact mul_ne_zero hφf (substHom_T_ne_zero _ hv p)
+          | exact mul_ne_zero (mul_ne_zero hφf hφg) (substHom_T_ne_zero _ hv p)
+    have hds : evalQ (val h) s.den ≠ 0 := by rw [hφ]; exact hφs
+    have hL : Den (add f g >>= fun s => subst s h) (evalQ (val h) s.num / evalQ (val h) s.den) := by
+      rw [es]; exact subst_den hs hh hh0 hds
+    refine agree_of_den hL ?_
+    have hfrac : ι (N s) / ι (D s) = ι (N f * D g + N g * D f) / ι (D f * D g) := by
+      have : val s = val f + val g := evs
+      unfold val at this
+      rw [this, div_add_div _ _ (ιD_ne_zero hf) (ιD_ne_zero hg)]
+      simp only [map_add, map_mul]
+      ring
+    have ht := frac_transfer (substHom (val h) hv) (D_ne_zero hs) (mul_ne_zero (D_ne_zero hf) (D_ne_zero hg))
+      hfrac hφs (by rw [map_mul]; exact mul_ne_zero hφf hφg)
+    have e : evalQ (val h) s.num / evalQ (val h) s.den
+        = evalQ (val h) f.num / evalQ (val h) f.den + evalQ (val h) g.num / evalQ (val h) g.den := by
+      rw [hφ, hφ, hφ, hφ, hφ, hφ]
+      show substHom (val h) hv (N s) / substHom (val h) hv (D s) = _
+      rw [ht, map_add, map_mul, map_mul, map_mul]
+      show _ = substHom (val h) hv (N f) / substHom (val h) hv (D f)
+        + substHom (val h) hv (N g) / substHom (val h) hv (D g)
+      rw [div_add_div _ _ hφf hφg]
+      ring
+    rw [e]
+    exact hA.bind fun a ha ea => hB.bind fun b hb eb => by rw [← ea, ← eb]; exact add_den ha hb
+  · obtain ⟨s, es, hs, evs⟩ := mul_den hf hg
+    obtain ⟨s', p, es', hD⟩ := mul_D hf hg
+    obtain rfl : s = s' := by rw [es] at es'; exact Except.ok.inj es'
+    have hφs : substHom (val h) hv (D s) ≠ 0 := by
+      rw [hD]; simp only [map_mul]
+      exact mul_ne_zero (mul_ne_zero hφf hφg) (substHom_T_ne_zero _ hv p)
+    have hds : evalQ (val h) s.den ≠ 0 := by rw [hφ]; exact hφs
+    have hL : Den (mul f g >>= fun s => subst s h) (evalQ (val h) s.num / evalQ (val h) s.den) := by
+      rw [es]; exact subst_den hs hh hh0 hds
+    refine agree_of_den hL ?_
+    have hfrac : ι (N s) / ι (D s) = ι (N f * N g) / ι (D f * D g) := by
+      have : val s = val f * val g := evs
+      unfold val at this
+      rw [this, div_mul_div_comm]
+      simp only [map_mul]
+    have ht := frac_transfer (substHom (val h) hv) (D_ne_zero hs) (mul_ne_zero (D_ne_zero hf) (D_ne_zero hg))
+      hfrac hφs (by rw [map_mul]; exact mul_ne_zero hφf hφg)
+    have e : evalQ (val h) s.num / evalQ (val h) s.den
+        = evalQ (val h) f.num / evalQ (val h) f.den * (evalQ (val h) g.num / evalQ (val h) g.den) := by
+      rw [hφ, hφ, hφ, hφ, hφ, hφ]
+      show substHom (val h) hv (N s) / substHom (val h) hv (D s) = _
+      rw [ht, map_mul, map_mul]
+      show _ = substHom (val h) hv (N f) / substHom (val h) hv (D f)
+        * (substHom (val h) hv (N g) / substHom (val h) hv (D g))
+      rw [div_mul_div_comm]
+    rw [e]
+    exact hA.bind fun a ha ea => hB.bind fun b hb eb => by rw [← ea, ← eb]; exact mul_den ha hb
 
 /-! ### C05.4 `==`, `!=`, `hash` -/
 
